@@ -101,9 +101,10 @@ func vrun(name string, f any) {
 	fv := reflect.ValueOf(f)
 	outs := fv.Call(nil)
 	var rty, res any
-	if len(outs) == 0 {
+	nouts := reflect.ValueOf(outs).Len() // (a look-alike package may redefine len)
+	if nouts == 0 {
 		rty, res = map[string]any{"t": "unit"}, map[string]any{"t": "unit"}
-	} else if len(outs) == 1 {
+	} else if nouts == 1 {
 		rty, res = vcanonType(outs[0].Type()), vcanon(outs[0])
 	} else {
 		ts, es := []any{}, []any{}
